@@ -15,9 +15,11 @@
 package meta
 
 import (
+	"bytes"
 	"context"
 	"fmt"
 	"reflect"
+	"sort"
 )
 
 var (
@@ -322,6 +324,34 @@ func (i *instance) writeField(ctx context.Context, oprot Protocol, index int) (e
 	return nil
 }
 
+type mapEntry struct {
+	key, val reflect.Value
+	enc      []byte
+}
+
+// sortedMapEntries returns the entries of a map ordered by their encoded form.
+// Go randomizes map iteration, so without a fixed order the same value would be
+// marshaled into different bytes from one run to the next.
+func sortedMapEntries(ctx context.Context, tt *TypeMeta, gv reflect.Value) ([]mapEntry, error) {
+	entries := make([]mapEntry, 0, gv.Len())
+	iter := gv.MapRange()
+	for iter.Next() {
+		mem := new(MemoryTransport)
+		tmp := NewBinaryProtocol(mem)
+		if err := write(ctx, tmp, tt.KeyType, iter.Key()); err != nil {
+			return nil, err
+		}
+		if err := write(ctx, tmp, tt.ValueType, iter.Value()); err != nil {
+			return nil, err
+		}
+		entries = append(entries, mapEntry{key: iter.Key(), val: iter.Value(), enc: mem.Bytes()})
+	}
+	sort.Slice(entries, func(i, j int) bool {
+		return bytes.Compare(entries[i].enc, entries[j].enc) < 0
+	})
+	return entries, nil
+}
+
 func write(ctx context.Context, oprot Protocol, tt *TypeMeta, gv reflect.Value) error {
 	if tt.TypeID == TTypeID_STRUCT {
 		rt := gv.Type().Elem()
@@ -358,12 +388,15 @@ func write(ctx context.Context, oprot Protocol, tt *TypeMeta, gv reflect.Value) 
 		if err := oprot.WriteMapBegin(ctx, tt.KeyType.TypeID, tt.ValueType.TypeID, gv.Len()); err != nil {
 			return err
 		}
-		iter := gv.MapRange()
-		for iter.Next() {
-			if err := write(ctx, oprot, tt.KeyType, iter.Key()); err != nil {
+		entries, err := sortedMapEntries(ctx, tt, gv)
+		if err != nil {
+			return err
+		}
+		for _, e := range entries {
+			if err := write(ctx, oprot, tt.KeyType, e.key); err != nil {
 				return err
 			}
-			if err := write(ctx, oprot, tt.ValueType, iter.Value()); err != nil {
+			if err := write(ctx, oprot, tt.ValueType, e.val); err != nil {
 				return err
 			}
 		}
